@@ -5,14 +5,17 @@ import (
 	"errors"
 	"fmt"
 	"io"
+	"net"
 	"strings"
 	"sync"
 	"sync/atomic"
 	"time"
 
+	"verif/faultconn"
 	"verif/fw"
 	"verif/sim"
 
+	"github.com/tsuna/gohbase"
 	"github.com/tsuna/gohbase/hrpc"
 )
 
@@ -87,7 +90,86 @@ func init() {
 	})
 }
 
+// c14CloseBehindStuckWriter: the regionserver has stopped reading, the socket
+// is full, and the scanner's lease renewal is stuck in (or behind) a Write that
+// nothing can interrupt. Close must still return at once: it does not wait for
+// the renewer, and the close request is sent on its own.
+func c14CloseBehindStuckWriter(c *fw.Ctx, n int) {
+	for i := 0; i < n; i++ {
+		id := fmt.Sprintf("close-behind-stuck-writer-%d", i)
+		c.Begin(id, id)
+		func() {
+			cl := sim.NewCluster(c.Seed*31+int64(i), 2)
+			defer cl.Close()
+			cl.CreateTable("t", nil, func(int) string { return "rs1:16020" })
+			cl.Load("t", cellsFor("p1", 2))
+			cl.Load("t", cellsFor("p2", 2))
+			cl.Load("t", cellsFor("p3", 2))
+			cl.ScanPolicy = func(x *sim.ScanCtx) sim.ScanChunk { return sim.ScanChunk{Rows: 1} }
+			var lastWriteStart atomic.Value
+			var writeBlocked int32
+			cl.WrapConn = func(addr string, conn net.Conn) net.Conn {
+				fc := faultconn.New(conn, nil)
+				if addr == "rs1:16020" {
+					fc.OnWrite = func(b []byte) { lastWriteStart.Store(time.Now()); atomic.StoreInt32(&writeBlocked, 1) }
+					fc.BeforeWriteReturn = func(int) { atomic.StoreInt32(&writeBlocked, 0) }
+				}
+				return fc
+			}
+			client := newClient(cl, gohbase.RpcQueueSize(1), gohbase.RegionLookupTimeout(120*time.Second), gohbase.RegionReadTimeout(120*time.Second))
+			defer func() { go client.Close() }()
+			sc, _ := hrpc.NewScanStr(context.Background(), "t", hrpc.NumberOfRows(1), hrpc.RenewInterval(1500*time.Millisecond),
+				hrpc.Attribute("opid", []byte(sim.OpIDPrefix+id)))
+			scanner := client.Scan(sc)
+			var err error
+			if !within(10*time.Second, func() { _, err = scanner.Next() }) || err != nil {
+				c.Inconclusive("stuck-writer-scan-did-not-start")
+				return
+			}
+			tNext := time.Now() // the renewer starts now; its first renewal is due 1.5s from here
+			stall := make(chan struct{})
+			cl.Server("rs1:16020").SetStall(stall)
+			defer close(stall)
+			fillCtx, fillCancel := context.WithCancel(context.Background())
+			defer fillCancel()
+			big := make([]byte, 1<<20)
+			go func() {
+				for k := 0; k < 64 && fillCtx.Err() == nil; k++ {
+					p, _ := hrpc.NewPutStr(fillCtx, "t", "p1", map[string]map[string][]byte{"f": {fmt.Sprintf("fill%d", k): big}})
+					go client.Put(p)
+					time.Sleep(10 * time.Millisecond)
+				}
+			}()
+			blocked := false
+			for k := 0; k < 600 && !blocked; k++ {
+				time.Sleep(10 * time.Millisecond)
+				t, _ := lastWriteStart.Load().(time.Time)
+				blocked = atomic.LoadInt32(&writeBlocked) == 1 && !t.IsZero() && time.Since(t) > 300*time.Millisecond
+			}
+			if !blocked {
+				c.Inconclusive("send-queue-never-blocked")
+				return
+			}
+			if time.Since(tNext) > 1400*time.Millisecond {
+				// the first renewal went out before the socket was full: it waits for an
+				// answer, not for the writer
+				c.Inconclusive("socket-filled-too-late-for-the-first-renewal")
+				return
+			}
+			time.Sleep(time.Until(tNext.Add(1700 * time.Millisecond))) // the first renewal is now queued behind the blocked Write
+			c.Count("closes_behind_a_stuck_writer", 1)
+			c.Eval(id, true)
+			if !within(3*time.Second, func() { scanner.Close() }) {
+				c.Violate(id, "scanner:close-blocks:renewal-stuck-behind-blocked-write", "Close of a renewing scanner did not return within 3s while the regionserver had stopped reading and the socket was full", id)
+			}
+		}()
+	}
+}
+
 func runC14(c *fw.Ctx) {
+	if c.Batch == 0 {
+		c14CloseBehindStuckWriter(c, c.Pick(2, 8))
+	}
 	// enumerated part: a fixed small scan (4 rows x 2 cells over 2 regions, one
 	// row per response) ended in every way at every point j (Next calls) / r
 	// (scan request hit)
